@@ -39,7 +39,19 @@ pub fn seed_points(thorough: bool) -> Vec<(&'static str, Point)> {
     let mut d = family::base_point();
     d.d[6] = 4;
     v.push(("Lagrange kernel column", d));
+    // (h) folding 16 on a 64-point domain with one layer: relabelled options then reach the later layers of
+    //     schedules that fold a domain down to one point or to nothing
+    let mut h = family::base_point();
+    h.d[12] = idx(&family::FOLDS, 16);
+    h.d[13] = idx(&family::REMS, 0);
+    v.push(("folding 16, one FRI layer of 4 rows", h));
     if thorough {
+        let mut i8 = family::base_point();
+        i8.d[12] = idx(&family::FOLDS, 8);
+        i8.d[13] = idx(&family::REMS, 0);
+        i8.d[9] = idx(&family::BLOWUPS, 2);
+        i8.d[2] = idx(&family::LENS, 64);
+        v.push(("folding 8, blowup 2, two FRI layers", i8));
         let mut e = a;
         e.d[11] = 1; // quadratic extension
         e.d[12] = 1; // folding 4
